@@ -273,21 +273,37 @@ def beq (a b : Sequence) : Bool :=
   Dict.eqBy Entry.beq a.data b.data && Dict.eqBy (· == ·) a.awgspecs b.awgspecs
     && Dict.eqBy (· == ·) a.sequencing b.sequencing
 
-/-- `Sequence.__add__` -/
-def add (a b : Sequence) : Except Err Sequence := do
-  if !(← a.checkConsistency) then throw .consistency
-  if !(← b.checkConsistency) then throw .consistency
-  if !(Dict.eqBy (· == ·) a.awgspecs b.awgspecs) then throw .compat
+/-- `element.copy()` / `subsequence.copy()` of a stored entry (a subsequence copy drops its name) -/
+def copyEntry : Entry → Entry
+  | .el e => .el e
+  | .sub s => .sub { s with name := "" }
+
+/-- the sequencing entry of the right operand moved behind `N` positions -/
+def retargetSeq (N : Int) (q : SeqSet) : SeqSet :=
+  { q with goto := Gen.retargetGoto q.goto N, jump_target := Gen.retargetJump q.jump_target N }
+
+/-- what `__add__` builds once its checks have passed: copies of `a`'s entries under their own
+    positions, copies of `b`'s entries under `position + len(a)`, `a`'s sequencing entries as they
+    are, `b`'s re-keyed and retargeted, the (common) AWG settings -/
+def addCore (a b : Sequence) : Sequence :=
   let N : Int := a.data.length
-  let copyEntry : Entry → Entry
-    | .el e => .el e
-    | .sub s => .sub { s with name := "" }
-  let data1 : Dict Int Entry := a.data.map (fun (k, en) => (k, copyEntry en))
-  let data := b.data.foldl (fun d (k, en) => Dict.upsert d (k + N) (copyEntry en)) data1
-  let sq := b.sequencing.foldl (fun d (k, q) =>
-      Dict.upsert d (k + N) { q with goto := Gen.retargetGoto q.goto N, jump_target := Gen.retargetJump q.jump_target N })
-    a.sequencing
-  pure { data := data, sequencing := sq, awgspecs := b.awgspecs, name := "" }
+  { data := b.data.foldl (fun d (k, en) => Dict.upsert d (k + N) (copyEntry en))
+              (a.data.map (fun (k, en) => (k, copyEntry en)))
+    sequencing := b.sequencing.foldl (fun d (k, q) => Dict.upsert d (k + N) (retargetSeq N q)) a.sequencing
+    awgspecs := b.awgspecs
+    name := "" }
+
+/-- `Sequence.__add__`: both operands must be consistent and carry equal AWG settings -/
+def add (a b : Sequence) : Except Err Sequence :=
+  match a.checkConsistency with
+  | .error e => .error e
+  | .ok false => .error .consistency
+  | .ok true =>
+    match b.checkConsistency with
+    | .error e => .error e
+    | .ok false => .error .consistency
+    | .ok true =>
+      if Dict.eqBy (· == ·) a.awgspecs b.awgspecs then .ok (addCore a b) else .error .compat
 
 /-- delays for an element, looked up per channel of that element -/
 def delaysFor (s : Sequence) (e : Element) : Except Err (List Rat) :=
